@@ -697,20 +697,12 @@ Proof.
     split; [constructor|]. split; [subst s5 s4; cbn in *; congruence|]. split; [subst s5 s4; cbn in *; congruence|]. cbn. eauto.
 Qed.
 
-Lemma close_eng (f : frame P) : eng f -> snd (frame_resume presume f Close) = [].
+Lemma close_frames_live (s : st) fs p b : plans s = fs ++ [FUser pid p b] ->
+  close_frames presume s =
+  (if b then [OPlanIn pid Close] else []) ++ flat_map (fun f => snd (frame_resume presume f Close)) (rev fs).
 Proof.
-  destruct f; cbn; try tauto; try reflexivity. intros _.
-  unfold helper_resume. destruct (hph h); reflexivity.
-Qed.
-Lemma close_frames_eng (fs : list (frame P)) : Forall eng fs -> flat_map (fun f => snd (frame_resume presume f Close)) fs = [].
-Proof. induction 1 as [|f fs Hf _ IH]; [reflexivity|]. cbn. rewrite (close_eng f Hf), IH. reflexivity. Qed.
-
-Lemma close_frames_live (s : st) fs p b : plans s = fs ++ [FUser pid p b] -> Forall eng fs ->
-  close_frames presume s = if b then [OPlanIn pid Close] else [].
-Proof.
-  intros Ep Hf. unfold close_frames. rewrite Ep, rev_app_distr. cbn [rev app flat_map].
-  rewrite close_frames_eng; [|apply Forall_rev; exact Hf]. rewrite app_nil_r.
-  destruct b; cbn; [destruct (presume p Close)|]; reflexivity.
+  intros Ep. unfold close_frames. rewrite Ep, rev_app_distr. cbn [rev app flat_map].
+  f_equal. destruct b; cbn; [destruct (presume p Close)|]; reflexivity.
 Qed.
 
 Lemma MA_opl_dead ms po : opl po -> dead3 (mp ms) ->
@@ -768,11 +760,13 @@ Proof.
     destruct (Hfin ms2) as (ms3 & M3 & I3); [rewrite S2, S1, Hst; exact Ht1|exact D2|].
     exists ms3. split; [|exact I3]. eapply MA_app; [exact M1|]. eapply MA_app; [exact M2|exact M3].
   - assert (Hn : mp ms <> SIn) by (unfold closeable in H3; destruct (mp ms); try tauto; congruence).
-    rewrite (close_frames_live s fs p b H1 H2).
+    rewrite (close_frames_live s fs p b H1).
+    assert (Hokf : Forall okf (rev fs)).
+    { apply Forall_rev. eapply Forall_impl; [|exact H2]. intros f. apply eng_okf. }
     set (ms1 := set_mstate ms (track (mstate ms) oq)).
     assert (M1 : MA pid ms oq ms1) by (apply MA_quiet; assumption).
     destruct b.
-    + (* the started plan is closed *)
+    + (* the started plan is closed, then the frames above it *)
       assert (Hio : input_ok ms1 Close = Some []).
       { unfold input_ok. cbn. unfold closeable in H3. destruct (mp ms) as [| | | |? r0|]; try tauto; try discriminate; try reflexivity.
         destruct r0; reflexivity. }
@@ -782,11 +776,14 @@ Proof.
         assert (Es : settle ms1 (OPlanIn pid Close) = ms1).
         { unfold settle. cbn. destruct (mp ms) eqn:E; try reflexivity. congruence. }
         rewrite Es, Hio. reflexivity. }
-      destruct (Hfin ms2) as (ms3 & M3 & I3); [cbn; rewrite Hst; exact Ht1|right; left; reflexivity|].
-      exists ms3. split; [|exact I3]. eapply MA_app; [exact M1|]. eapply MA_app; [exact M2|exact M3].
-    + destruct (Hfin ms1) as (ms3 & M3 & I3); [cbn; rewrite Hst; exact Ht1| |].
+      destruct (close_frames_okf (rev fs) ms2 Hokf) as (ms2' & M2' & D2' & S2'); [right; left; reflexivity|].
+      destruct (Hfin ms2') as (ms3 & M3 & I3); [rewrite S2'; cbn; rewrite Hst; exact Ht1|exact D2'|].
+      exists ms3. split; [|exact I3]. eapply MA_app; [exact M1|]. eapply MA_app; [eapply MA_app; [exact M2|exact M2']|exact M3].
+    + assert (D1 : dead3 (mp ms1)).
       { unfold closeable in H3. cbn. destruct (mp ms); try tauto; try discriminate. left; reflexivity. }
-      exists ms3. split; [|exact I3]. eapply MA_app; [exact M1|]. cbn. exact M3.
+      destruct (close_frames_okf (rev fs) ms1 Hokf D1) as (ms2' & M2' & D2' & S2').
+      destruct (Hfin ms2') as (ms3 & M3 & I3); [rewrite S2'; cbn; rewrite Hst; exact Ht1|exact D2'|].
+      exists ms3. split; [|exact I3]. eapply MA_app; [exact M1|]. cbn [app]. eapply MA_app; [exact M2'|exact M3].
 Qed.
 
 Lemma dstep_CFinalize_fin (s : st) r pend ms s' o : Q s (CFinalize r pend) ms -> dstep s (CFinalize r pend) = inr (s', o) ->
